@@ -5,7 +5,7 @@ strings, short byte strings, single-byte mutations of valid files, manifest node
 LoadPackage + validatePackage in-process (panic capture, memory limit, hang classifier); every misbehaving class is
 re-run through the real CLI before it is believed."""
 import itertools, json, os, re, shutil, time
-from multiprocessing import Pool
+from build import Pool
 
 import build
 from evidence import Check
@@ -341,6 +341,10 @@ def cli_confirm(files, pkg):
     return outs
 
 
+class _OutOfTime(Exception):
+    pass
+
+
 def main(tier):
     chk = Check("C10", "exploration", tier,
                 "all YAML node trees (tags x scalars x sequences x mappings, 2-3 levels) in 10 syntactic contexts; all type-expression "
@@ -355,24 +359,26 @@ def main(tier):
     total = 0
     fams = {}
     bad = {}
-    with Pool(build.NCPU) as pool:
-        def batches():
-            while True:
-                b = list(itertools.islice(gen, 400))
-                if not b:
-                    return
-                yield b
-        for out, counts in pool.imap_unordered(run_batch, batches(), chunksize=1):
-            for (fam, cls), n in counts.items():
-                fams[(fam, cls)] = fams.get((fam, cls), 0) + n
-                total += n
-                if fam == "skipped-after-repeated-hangs":
-                    chk.exhaustive = False
-            for fam, cls, detail, files, pkg in out:
-                bad.setdefault(cls, []).append((fam, detail, files, pkg))
-            if chk.out_of_time():
-                pool.terminate()
-                break
+    try:
+        with Pool(build.NCPU) as pool:
+            def batches():
+                while True:
+                    b = list(itertools.islice(gen, 400))
+                    if not b:
+                        return
+                    yield b
+            for out, counts in pool.imap_unordered(run_batch, batches(), chunksize=1):
+                for (fam, cls), n in counts.items():
+                    fams[(fam, cls)] = fams.get((fam, cls), 0) + n
+                    total += n
+                    if fam == "skipped-after-repeated-hangs":
+                        chk.exhaustive = False
+                for fam, cls, detail, files, pkg in out:
+                    bad.setdefault(cls, []).append((fam, detail, files, pkg))
+                if chk.out_of_time():
+                    raise _OutOfTime()
+    except _OutOfTime:
+        pass
     chk.evaluations = total
     nerr = sum(n for (f, c), n in fams.items() if c == "error")
     for i in range(nerr + sum(len(v) for v in bad.values())):
